@@ -65,3 +65,9 @@ add('C08', 'Hypothesis-generated material constants, deformation-gradient classe
     'W(0)=P(0)=0 and finiteness for every option, evaluated by a single compiled call and inside jit(vmap). Sampling.',
     'Rounding allowance 1e3*ulp*K*max(e,e^2) + 50*ulp*K; plastic models only in their elastic regime; the model factories are called inside the compiled function '
     'with traced constants (as the inverse-problem code does); D1 covers only compiled-vs-op-by-op discrepancies at relative stretch gap < 1e-4.')
+add('C09', 'Hypothesis-generated multi-step deformation histories (segment kinds incl. states placed on the yield surface) x kinematics x hardening x rate sensitivity; invariant-over-history and reference-model oracles (checker-side strain measures, hardening laws, incremental potential)',
+    'Generated histories of up to 10 steps for all 18 J2 configurations; after every update the checker verifies eqps monotonicity (exact), isochoric plastic distortion, '
+    'yield consistency from the committed state with its own numpy strain measures and hardening formulas, equality of the library energy with the incremental potential at '
+    'the library increment and its minimality against 24 admissible alternatives, and for rate-independent laws idempotence and before/after-commit equality. Sampling of histories.',
+    'Model tolerance 1e-10*Y0 (x10) plus 1e-9 relative rounding; for rate-sensitive laws the surface is known only up to the overstress of an increment of 8 ulp of eqps; '
+    'known findings D16 (rate-sensitive root solve cannot localise increments < 1e-12 of the bracket) and D1 (compiled vs op-by-op discrepancies) are excluded by mechanism-specific predicates.')
